@@ -251,7 +251,7 @@ fn outcome_line(o: &Outcome) -> String {
 }
 
 pub fn exec_opts_for(prop: &str) -> ExecOpts {
-    ExecOpts { c08: prop == "C08", data_after_ec_failure: prop == "C05" }
+    ExecOpts { c08: prop == "C08", data_after_ec_failure: prop == "C05", data_stage: prop == "C05" || prop == "C03" }
 }
 
 fn summarize_faults(t: &Trace, fired: &[bool]) -> J {
